@@ -482,6 +482,7 @@ func realCase(c *kit.Case) {
 		rr.poison = genPoison(r, keys)
 		c.Obs("histories_with_panicking_callbacks", 1)
 	}
+	measureBaseline()
 	if !quiesce(procBaseline) {
 		c.Inconclusive("goroutine count did not return to the process baseline")
 		return
@@ -638,7 +639,9 @@ func (rr *realRun) checkStopped() {
 			c.Obs("ops_after_stop_rejected_with_ErrClosed", 1)
 		}
 	}
-	time.Sleep(4 * rr.I)
+	if rr.I < 20*time.Millisecond {
+		time.Sleep(4 * rr.I) // a few real ticks; on the scripted tickers the interval is nominal
+	}
 	runtime.Gosched()
 	if after := rr.firedCount(); after != before {
 		c.Viol("C12/stop/fired-after-stop", fmt.Sprintf("%d deliveries after Stop had returned and the wheel's goroutine had exited", after-before), rr.witness(""))
@@ -674,6 +677,7 @@ func stopRace(c *kit.Case, real bool) {
 	stopAt := int64(r.Range(0, M))
 	rr.script = genScript(r, rr.n, keys)
 	rr.budget = r.Range(0, 10)
+	measureBaseline()
 	if !quiesce(procBaseline) {
 		c.Inconclusive("goroutine count did not return to the process baseline")
 		return
@@ -966,6 +970,7 @@ func stopSeq(c *kit.Case) {
 // ctorCase: NewTimingWheel must reject interval <= 0, numSlots <= 0 and a nil execute with an
 // error (no panic, no wheel), and accept everything else.
 func ctorCase(c *kit.Case) {
+	measureBaseline()
 	intervals := []time.Duration{0, -1, -time.Millisecond, -time.Hour, time.Duration(-1 << 63), 1, time.Millisecond, time.Hour}
 	slots := []int{0, -1, -300, -1 << 62, 1, 2, 300}
 	exec := func(k, v any) {}
